@@ -1,27 +1,34 @@
 import NmlVerif.Model.Factory
 import NmlVerif.Gen.Members
+import NmlVerif.Gen.Factory
 import NmlVerif.DrvCommon
 import Std.Data.HashMap
 /-!
-Driver for C09 (line protocol, see harness/props/c09.py).
+Driver for C09 (line protocol, see harness/props/c09.py).  Runs the REGENERATED definitions of `Gen/Factory.lean`
+(`Props/C09Gen.lean` proves them equal to the hand model) over `Gen.Members.table` and `Gen.Factory.ctorTable`.
 
-  CALL = {"cls":str,"form":"str"|"class","kw":[[key,VAL]…],"flag":b,"cf":b,"cv":b,"oid":n,"fields":[[member,VAL]…]}
-         cf: the real constructor raises ValueError on these keywords; cv: the real validate() accepts the component;
-         fields: the member attributes the real constructor (and Cell setup) leaves behind (`Env.ctorValue`)
-  {"op":"factory","en":b, CALL…}                        -> {"r":TAG,"landed":[member names set from keywords]}
-  {"op":"session","init":b,"cmds":[["enable"]|["disable"]|["make",CALL]…]}
+  CALL = {"cls":str,"form":"str"|"class","kw":[[key,VAL]…],"flag":b,"cv":b,"oid":n,
+          "casts":[["int"|"float",VAL,VAL|null]…],"cellset":[[member,VAL]…]}
+         cv: the real validate() accepts the component; casts: Python's int()/float() on the values involved
+         (null = ValueError); cellset: the attributes `Cell.setup_nml_cell` leaves behind (`Env.setupCell`)
+  {"op":"factory","en":b,"ep":"cls"|"utils", CALL…}      -> {"r":TAG,"fields":[[name,CANON]…]|null}
+  {"op":"ctor", CALL…}                                   -> {"r":"ok"|"err:ctor","fields":[[name,CANON]…]|null}
+  {"op":"session","init":b,"cmds":[["enable"]|["disable"]|["make",CALL]|["addt",CALL+{"parent":OBJ,"hint","force","pv","sok"}]…]}
                                                           -> {"switch":b,"res":[TAG…]}
   {"op":"addtype","parent":OBJ,"calls":[{CALL…,"en":b,"hint":s|null,"force":b,"pv":b,"sok":b}…]}
                                                           -> {"res":[{"r":TAG,"w":…,"ret":oid|null,"ch":[[attr,CANON]…]}…]}
+  {"op":"sites"}                                         -> {"sites":[[class,method,callee,type|null,flag,[keys…],passkw]…]}
   TAG = "ok" | "err:attr" | "err:ctor" | "err:badArg:<key>" | "err:invalid" | "err:add:<tag>"
   VAL/OBJ/CANON as in Drivers/C10.lean.
 -/
 open Lean NmlVerif NmlVerif.Add NmlVerif.Factory Drv
 
-def nameMap : Std.HashMap String Nat :=
-  (Gen.Members.names.zipIdx).foldl (fun m (s, i) => m.insert s i) {}
+def allNames : List String := Gen.Members.names ++ Gen.Factory.extraNames
 
-def nNames : Nat := Gen.Members.names.length
+def nameMap : Std.HashMap String Nat :=
+  (allNames.zipIdx).foldl (fun m (s, i) => m.insert s i) {}
+
+def nNames : Nat := allNames.length
 
 def intern (s : String) : Nat :=
   match nameMap[s]? with
@@ -32,7 +39,7 @@ partial def decodeBytes (n : Nat) (acc : List UInt8) : List UInt8 :=
   if n == 0 then acc else decodeBytes ((n - 1) / 257) (UInt8.ofNat ((n - 1) % 257) :: acc)
 
 def extern (i : Nat) : String :=
-  if i < nNames then Gen.Members.names.getD i "?"
+  if i < nNames then allNames.getD i "?"
   else (String.fromUTF8? (ByteArray.mk (decodeBytes (i - nNames - 1) []).toArray)).getD "?"
 
 instance : Inhabited Val := ⟨.none⟩
@@ -89,9 +96,6 @@ def parseKw (j : Json) : Kwargs :=
 def parseT (j : Json) : TypeArg :=
   if getStr j "form" == "class" then .byClass (intern (getStr j "cls")) else .byName (intern (getStr j "cls"))
 
-def kwKey (cls : Nat) (kw : Kwargs) : String :=
-  toString cls ++ ":" ++ String.intercalate "|" (kw.map (fun (k, v) => toString k ++ "=" ++ (canon v).compress))
-
 def errTag : Factory.Err → String
   | .attrError => "err:attr"
   | .ctorValueError => "err:ctor"
@@ -109,78 +113,119 @@ def resTag : Except Factory.Err Obj → String
   | .ok _ => "ok"
   | .error e => errTag e
 
-/-- environment from the bits the harness measured on the real library: per keyword list / per new object -/
-def mkEnv (cf : List String) (valid : Obj → Bool) (fields : List (Nat × Val)) : Env where
-  valid := valid
-  ctorFails := fun cls kw => cf.contains (kwKey cls kw)
-  ctorValue := fun _ n v => match lookup fields n with
-    | some x => x
-    | none => match v with | some x => x | none => .none
-  cellCls := Gen.Members.cellCls
-  setupCell := id
-
-def parseFields (j : Json) : List (Nat × Val) :=
-  (getArr j "fields").toList.map (fun f => match f with
+def parseFields (j : Json) (k : String) : List (Nat × Val) :=
+  (getArr j k).toList.map (fun f => match f with
     | .arr p => match p.toList with
       | [.str k, v] => (intern k, parseVal v)
       | _ => (0, .none)
     | _ => (0, .none))
 
-def landed (o : Obj) : Json :=
-  Json.arr (o.fields.filterMap (fun (k, v) => match v with
-    | .none => none
-    | .list [] => none
-    | _ => some (Json.str (extern k)))).toArray
+/-- measured `int()` / `float()`: (kind, canonical argument, result) -/
+def parseCasts (js : List Json) : List (String × String × Option Val) :=
+  js.flatMap (fun j => (getArr j "casts").toList.filterMap (fun c => match c with
+    | .arr a => match a.toList with
+      | [.str k, v, r] => some (k, (canon (parseVal v)).compress, match r with | .null => none | _ => some (parseVal r))
+      | _ => none
+    | _ => none))
+
+def castWith (tbl : List (String × String × Option Val)) (kind : String) (v : Val) : Option Val :=
+  let key := (canon v).compress
+  match tbl.find? (fun e => e.1 == kind && e.2.1 == key) with
+  | some e => e.2.2
+  | none => none
+
+/-- environment from what the harness measured on the real library / on Python -/
+def mkEnv (calls : List Json) (valid : Obj → Bool) : Env :=
+  let casts := parseCasts calls
+  let cellset := calls.flatMap (fun c => (parseFields c "cellset").map (fun p => (getNat c "oid", p)))
+  { valid := valid
+    pyInt := castWith casts "int"
+    pyFloat := castWith casts "float"
+    cellCls := Gen.Factory.setupClass
+    setupCell := fun o => (cellset.filter (fun e => e.1 == o.oid)).foldl (fun o e => o.set e.2.1 e.2.2) o }
+
+def fieldsJ (o : Obj) : Json :=
+  Json.arr (o.fields.map (fun (k, v) => Json.arr #[extern k, canon v])).toArray
+
+def flagJ : Flag → Json
+  | .dflt => "dflt" | .lit true => "lit:True" | .lit false => "lit:False" | .param => "param" | .opaque => "opaque"
+
+def calleeJ : Callee → Json
+  | .factory => "factory" | .add => "add" | .validate => "validate"
+
+def addTag (r : AddOutcome) : String :=
+  match r.result with
+  | .ok _ => "ok"
+  | .error (.inl e) => errTag e
+  | .error (.inr .invalid) => "err:invalid"     -- the same ValueError("Validation failed…"), raised for the parent
+  | .error (.inr e) => "err:add:" ++ addErrTag e
 
 def handle (j : Json) : Json :=
   let T := Gen.Members.table
+  let C := Gen.Factory.ctorTable
   match getStr j "op" with
   | "factory" =>
     let t := parseT j
     let kw := parseKw j
-    let env := mkEnv (if getBool j "cf" then [kwKey t.resolve kw] else []) (fun _ => getBool j "cv") (parseFields j)
-    let r := factory T env (getBool j "en") (getBool j "flag") t kw (getNat j "oid")
-    Json.mkObj [("r", resTag r), ("landed", match r with | .ok o => landed o | .error _ => .null)]
+    let env := mkEnv [j] (fun _ => getBool j "cv")
+    let r := if getStr j "ep" == "utils"
+      then Gen.Factory.utilsComponentFactory T C env (getBool j "en") (getBool j "flag") t kw (getNat j "oid")
+      else Gen.Factory.componentFactory T C env (getBool j "en") (getBool j "flag") t kw (getNat j "oid")
+    Json.mkObj [("r", resTag r), ("fields", match construct C env t.resolve kw (getNat j "oid") with
+      | some o => fieldsJ (built env t.resolve o)
+      | none => .null)]
+  | "ctor" =>
+    let t := parseT j
+    let env := mkEnv [j] (fun _ => true)
+    match construct C env t.resolve (parseKw j) (getNat j "oid") with
+    | some o => Json.mkObj [("r", "ok"), ("fields", fieldsJ o)]
+    | none => Json.mkObj [("r", "err:ctor"), ("fields", .null)]
   | "session" =>
     let calls := (getArr j "cmds").toList.filterMap (fun c => match c with
-      | .arr a => if a[0]? == some (Json.str "make") then a[1]? else none
+      | .arr a => if a[0]? == some (Json.str "make") || a[0]? == some (Json.str "addt") then a[1]? else none
       | _ => none)
-    let cf := calls.filterMap (fun c => if getBool c "cf" then some (kwKey (parseT c).resolve (parseKw c)) else none)
     let validOids := calls.filterMap (fun c => if getBool c "cv" then some (getNat c "oid") else none)
-    let env := mkEnv cf (fun o => validOids.contains o.oid) []
-    let cmds : List Cmd := (getArr j "cmds").toList.filterMap (fun c => match c with
+    let validParents := calls.filterMap (fun c => if getBool c "pv" then some (parseObj (getObj c "parent")).oid else none)
+    let env := mkEnv calls (fun o => validOids.contains o.oid || validParents.contains o.oid)
+    -- the session of the model, but with the REGENERATED functions (equal by `c09_gen_factory` / `c09_gen_add`)
+    let step := fun (acc : Bool × List Json) (c : Json) =>
+      match c with
       | .arr a =>
-        match (a[0]? : Option Json) with
-        | some (Json.str "enable") => some Cmd.enable
-        | some (Json.str "disable") => some Cmd.disable
-        | some (Json.str "make") =>
-          (a[1]?).map (fun c => Cmd.make (getBool c "flag") (parseT c) (parseKw c) (getNat c "oid"))
-        | _ => none
-      | _ => none)
-    let r := session T env (getBool j "init") cmds
-    Json.mkObj [("switch", r.1), ("res", Json.arr (r.2.map (fun x => Json.str (resTag x))).toArray)]
+        match (a[0]? : Option Json), (a[1]? : Option Json) with
+        | some (Json.str "enable"), _ => (Gen.Factory.enableSwitch acc.1, acc.2)
+        | some (Json.str "disable"), _ => (Gen.Factory.disableSwitch acc.1, acc.2)
+        | some (Json.str "make"), some c =>
+          (acc.1, Json.str (resTag (Gen.Factory.componentFactory T C env acc.1 (getBool c "flag") (parseT c) (parseKw c)
+            (getNat c "oid"))) :: acc.2)
+        | some (Json.str "addt"), some c =>
+          let hint := (getStr? c "hint").bind (fun s => if s.isEmpty then none else some (intern s))
+          (acc.1, Json.str (addTag (Gen.Factory.addByType T C env (fun _ => getBool c "sok") acc.1 (getBool c "flag")
+            (parseObj (getObj c "parent")) (parseT c) (parseKw c) hint (getBool c "force") (getNat c "oid"))) :: acc.2)
+        | _, _ => acc
+      | _ => acc
+    let fin := (getArr j "cmds").foldl step (getBool j "init", [])
+    Json.mkObj [("switch", Gen.Factory.getSwitch fin.1), ("res", Json.arr fin.2.reverse.toArray)]
   | "addtype" =>
     let step := fun (acc : Obj × List Json) (c : Json) =>
       let parent := acc.1
       let t := parseT c
       let kw := parseKw c
       let oid := getNat c "oid"
-      let env := mkEnv (if getBool c "cf" then [kwKey t.resolve kw] else [])
-        (fun o => if o.oid == oid then getBool c "cv" else getBool c "pv") (parseFields c)
+      let env := mkEnv [c] (fun o => if o.oid == oid then getBool c "cv" else getBool c "pv")
       let hint := (getStr? c "hint").bind (fun s => if s.isEmpty then none else some (intern s))
-      let r := addByType T env (fun _ => getBool c "sok") (getBool c "en") (getBool c "flag") parent t kw hint
+      let r := Gen.Factory.addByType T C env (fun _ => getBool c "sok") (getBool c "en") (getBool c "flag") parent t kw hint
                 (getBool c "force") oid
-      let tag := match r.result with
-        | .ok _ => "ok"
-        | .error (.inl e) => errTag e
-        | .error (.inr .invalid) => "err:invalid"     -- the same ValueError("Validation failed…"), raised for the parent
-        | .error (.inr e) => "err:add:" ++ addErrTag e
-      let out := Json.mkObj [("r", tag), ("w", warnJ r.warn),
+      let out := Json.mkObj [("r", addTag r), ("w", warnJ r.warn),
         ("ret", match r.result with | .ok o => Json.num o.oid | .error _ => .null),
         ("ch", Json.arr (diff parent r.parent).toArray)]
       (r.parent, out :: acc.2)
     let fin := (getArr j "calls").foldl step (parseObj (getObj j "parent"), [])
     Json.mkObj [("res", Json.arr fin.2.reverse.toArray)]
+  | "sites" =>
+    Json.mkObj [("sites", Json.arr (Gen.Factory.helperSites.map (fun s => Json.arr #[extern s.cls, s.method, calleeJ s.callee,
+      (match s.typ with | some t => Json.str (extern t) | none => .null), flagJ s.flag,
+      Json.arr (s.kwKeys.map (fun k => Json.str (extern k))).toArray, s.passKw])).toArray),
+      ("initial", Gen.Factory.initialSwitch)]
   | _ => Json.mkObj [("error", "unknown op")]
 
 def main : IO Unit := loop handle
